@@ -188,11 +188,11 @@ Proof.
   intros c m p F. unfold writes_fixed in F. apply andb_true_iff in F as [F F18].
   apply andb_true_iff in F as [F15 F16].
   destruct p; cbn [step].
-  - wok.
+  - cbn [snd]. wok.
   - apply W_new_domain; auto.
   - apply W_new_domain; auto.
   - apply W_new_domain; auto.
-  - wok. apply fresh_state_cells. intros; unfold okw; simpl; lia.
+  - cbn [snd]. wok. apply fresh_state_cells. intros; unfold okw; simpl; lia.
   - destruct (add_op m (mk_oinfo d a objs sh)) as [m0 evo] eqn:E. cbn [snd].
     apply add_op_same in E as (_ & _ & W); auto.
   - destruct (ev_ground m o (nth o (ops m) dflt_o)) as [oi evs] eqn:E. cbn [snd].
@@ -210,9 +210,9 @@ Proof.
         rewrite Eb, Es in Wb; auto.
   - destruct (ev_copy_state m (nth s (sts m) dflt_s)) as [si evs] eqn:E. cbn [snd].
     pose proof (W_copy (length (doms m)) m (nth s (sts m) dflt_s)) as W. rewrite E in W; auto.
-  - wok.
-  - wok.
-  - wok. unfold objs_reads. destruct (o_objs (nth o (ops m) dflt_o)); wok.
+  - cbn [snd]. wok.
+  - cbn [snd]. wok.
+  - cbn [snd]. wok. unfold objs_reads. destruct (o_objs (nth o (ops m) dflt_o)); wok.
   - destruct (add_op m (mk_oinfo d a (Some pobjs) sh)) as [m0 evo] eqn:E0.
     apply add_op_same in E0 as (_ & Es0 & W0).
     destruct (ensure_grounded m0 (length (ops m))) as [[m1 oi] evg] eqn:E1.
@@ -227,4 +227,280 @@ Proof.
       wok; auto. apply W_applicable.
       pose proof (W_apply_body c (length (doms m)) m1 (length (ops m)) oi (nth s (sts m) dflt_s) F15 F16) as Wb.
       rewrite Eb, Es1, Es0 in Wb; auto.
+Qed.
+
+(* ------------------------------------------------------------------ the invariant *)
+(* every cell reachable from a live value lies in the region of an existing value (never in an operator's region,
+   never in the region of a value still to be created) *)
+Definition Inv (m : mstate) : Prop :=
+  (forall si, In si (sts m) -> Forall (live (length (doms m)) (length (sts m))) (st_cells si)) /\
+  (forall di, In di (doms m) -> live (length (doms m)) (length (sts m)) (d_types di)).
+
+Lemma Inv_init : Inv init.
+Proof. split; simpl; intros ? []. Qed.
+
+Lemma src_live : forall m s, Inv m ->
+  Forall (live (length (doms m)) (length (sts m))) (st_cells (nth s (sts m) dflt_s)).
+Proof.
+  intros m s [HS _]. destruct (Nat.lt_ge_cases s (length (sts m))) as [H|H].
+  - apply HS. apply nth_In; auto.
+  - rewrite nth_overflow; auto. constructor.
+Qed.
+
+Lemma reach_live : forall m v, Inv m -> In v (values m) ->
+  Forall (live (length (doms m)) (length (sts m))) (reach m v).
+Proof.
+  intros m v [HS HD] Hv. unfold values in Hv. destruct Hv as [<-|Hv].
+  - simpl. constructor; [unfold live; simpl; auto | constructor].
+  - apply in_app_or in Hv as [Hv|Hv]; apply in_map_iff in Hv as [i [<- Hi]]; apply in_seq in Hi; simpl in Hi.
+    + simpl. unfold dom_cells. constructor; [| constructor].
+      * apply HD. apply nth_In; lia.
+      * unfold live; simpl; lia.
+      * apply Forall_forall; intros x Hx. apply in_map_iff in Hx as [j [<- _]]. unfold live; simpl; lia.
+    + simpl. apply HS. apply nth_In; lia.
+Qed.
+
+Lemma Inv_same : forall m m', doms m' = doms m -> sts m' = sts m -> Inv m -> Inv m'.
+Proof. intros m m' E1 E2 H. unfold Inv in *. rewrite E1, E2; auto. Qed.
+
+Lemma Inv_add_state : forall m si, Inv m ->
+  Forall (live (length (doms m)) (S (length (sts m)))) (st_cells si) -> Inv (add_state m si).
+Proof.
+  intros m si [HS HD] H. unfold Inv, add_state; simpl. rewrite app_length; simpl. rewrite Nat.add_1_r. split.
+  - intros si' Hin. apply in_app_or in Hin as [Hin|[<-|[]]]; auto.
+    eapply Forall_impl; [| apply HS; auto]. intros l Hl. eapply live_mono; [| | apply Hl]; lia.
+  - intros di Hin. eapply live_mono; [| | apply HD; auto]; lia.
+Qed.
+
+Lemma Inv_new_domain : forall c m typed nacts u, Inv m -> Inv (fst (ev_new_domain c m typed nacts u)).
+Proof.
+  intros c m typed nacts u [HS HD]. unfold ev_new_domain, new_domain_types.
+  assert (G : forall t evs, live (S (length (doms m))) (length (sts m)) t ->
+              Inv (fst (let '(t0, evs0) := (t, evs) in
+                 ({| doms := doms m ++ [{| d_types := t0; d_nacts := nacts |}]; sts := sts m; ops := ops m |},
+                  evs0 ++ map Alloc ((ODom (length (doms m)), 1) :: map (fun i => (ODom (length (doms m)), 2 + i)) (seq 0 nacts))
+                       ++ map Write ((ODom (length (doms m)), 1) :: map (fun i => (ODom (length (doms m)), 2 + i)) (seq 0 nacts))
+                       ++ (if u then [Write t0] else [])
+                       ++ map (Link (ODom (length (doms m))))
+                            (dom_cells (length (doms m)) {| d_types := t0; d_nacts := nacts |}))))).
+  { intros t evs Ht. simpl. unfold Inv; simpl. rewrite app_length; simpl. rewrite Nat.add_1_r. split.
+    - intros si Hin. eapply Forall_impl; [| apply HS; auto]. intros l Hl. eapply live_mono; [| | apply Hl]; lia.
+    - intros di Hin. apply in_app_or in Hin as [Hin|[<-|[]]]; simpl; auto.
+      eapply live_mono; [| | apply HD; auto]; lia. }
+  destruct typed; [| destruct (fix18 c)]; apply G; unfold live; simpl; auto.
+Qed.
+
+Lemma set_val_cells : forall (P : loc -> Prop) vals k l,
+  Forall P (map snd vals) -> P l -> Forall P (map snd (set_val vals k l)).
+Proof.
+  induction vals as [|[k' l'] r IH]; intros k l H Hl; simpl.
+  - constructor; auto.
+  - inversion H; subst. destruct (Nat.eqb k k'); simpl; constructor; auto.
+Qed.
+
+Lemma effects_cells : forall (P : loc -> Prop) c o s effs i si fresh, fix16 c = true ->
+  (forall j, P (OSt s, j)) -> Forall P (st_cells si) ->
+  Forall P (st_cells (fst (ev_effects c o s i effs si fresh))).
+Proof.
+  intros P c o s effs. induction effs as [|[k nrhs] r IH]; intros i si fresh F HP H; simpl; auto.
+  rewrite F.
+  destruct (ev_effects c o s (S (i + nrhs)) r
+             {| s_cells := s_cells si; s_vals := set_val (s_vals si) k (OSt s, fresh) |} (S fresh)) as [si'' evs3] eqn:E.
+  simpl.
+  specialize (IH (S (i + nrhs)) {| s_cells := s_cells si; s_vals := set_val (s_vals si) k (OSt s, fresh) |} (S fresh) F HP).
+  rewrite E in IH; simpl in IH. apply IH.
+  unfold st_cells in *; simpl. apply Forall_app in H as [H1 H2]. apply Forall_app; split; auto.
+  apply set_val_cells; auto.
+Qed.
+
+Lemma Inv_apply_body : forall c m o oi src, fix16 c = true -> Inv m -> Inv (fst (ev_apply_body c m o oi src)).
+Proof.
+  intros c m o oi src F H. unfold ev_apply_body.
+  destruct (ev_copy_state m src) as [si evc] eqn:Ec.
+  destruct (ev_effects c o (length (sts m)) (o_base oi + a_pre (o_sh oi)) (a_effs (o_sh oi)) si
+             (3 + length (s_vals si))) as [si' eve] eqn:Ee.
+  simpl. apply Inv_add_state; auto.
+  pose proof (effects_cells (live (length (doms m)) (S (length (sts m)))) c o (length (sts m)) (a_effs (o_sh oi))
+                (o_base oi + a_pre (o_sh oi)) si (3 + length (s_vals si)) F) as G.
+  rewrite Ee in G; simpl in G. apply G.
+  - intros; unfold live; simpl; lia.
+  - unfold ev_copy_state in Ec. inversion Ec; subst. apply fresh_state_cells. intros; unfold live; simpl; lia.
+Qed.
+
+Lemma In_firstn : forall {A} n (l : list A) x, In x (firstn n l) -> In x l.
+Proof.
+  induction n; intros l x H; simpl in H; [contradiction|]. destruct l; simpl in *; [contradiction|].
+  destruct H; auto.
+Qed.
+
+Lemma step_inv : forall c m p, writes_fixed c = true -> Inv m -> Inv (fst (step c m p)).
+Proof.
+  intros c m p F H. unfold writes_fixed in F. apply andb_true_iff in F as [F F18].
+  apply andb_true_iff in F as [F15 F16].
+  destruct p; cbn [step].
+  - auto.
+  - apply Inv_new_domain; auto.
+  - apply Inv_new_domain; auto.
+  - apply Inv_new_domain; auto.
+  - cbn [fst]. apply Inv_add_state; auto. apply fresh_state_cells. intros; unfold live; simpl; lia.
+  - destruct (add_op m (mk_oinfo d a objs sh)) as [m0 evo] eqn:E. cbn [fst].
+    apply add_op_same in E as (E1 & E2 & _). eapply Inv_same; eauto.
+  - destruct (ev_ground m o (nth o (ops m) dflt_o)) as [oi evs] eqn:E. cbn [fst].
+    eapply Inv_same; [| | apply H]; auto.
+  - destruct (ensure_grounded m o) as [[m1 oi] evg] eqn:E. cbn [fst].
+    apply ensure_grounded_same in E as (E1 & E2 & _). eapply Inv_same; eauto.
+  - destruct (ensure_grounded m o) as [[m1 oi] evg] eqn:E.
+    apply ensure_grounded_same in E as (E1 & E2 & _).
+    assert (H1 : Inv m1) by (eapply Inv_same; eauto).
+    destruct raised; [cbn [fst]; auto|].
+    destruct (ev_apply_body c m1 o oi (nth s (sts m) dflt_s)) as [m2 evb] eqn:Eb. cbn [fst].
+    pose proof (Inv_apply_body c m1 o oi (nth s (sts m) dflt_s) F16 H1) as G. rewrite Eb in G; auto.
+  - destruct (ev_copy_state m (nth s (sts m) dflt_s)) as [si evs] eqn:E. cbn [fst].
+    apply Inv_add_state; auto. unfold ev_copy_state in E. inversion E; subst.
+    apply fresh_state_cells. intros; unfold live; simpl; lia.
+  - auto.
+  - auto.
+  - auto.
+  - destruct (add_op m (mk_oinfo d a (Some pobjs) sh)) as [m0 evo] eqn:E0.
+    apply add_op_same in E0 as (Ed0 & Es0 & _).
+    destruct (ensure_grounded m0 (length (ops m))) as [[m1 oi] evg] eqn:E1.
+    apply ensure_grounded_same in E1 as (Ed1 & Es1 & _).
+    assert (H1 : Inv m1) by (eapply Inv_same; [| | apply H]; congruence).
+    destruct refused.
+    + destruct (fix17 c).
+      * destruct (ev_copy_state m1 (nth s (sts m) dflt_s)) as [si evs] eqn:Ec. cbn [fst].
+        apply Inv_add_state; auto. unfold ev_copy_state in Ec. inversion Ec; subst.
+        apply fresh_state_cells. intros; unfold live; simpl; lia.
+      * cbn [fst]. apply Inv_add_state; auto.
+        pose proof (src_live m s H) as L. rewrite Ed1, Es1, Ed0, Es0.
+        unfold st_cells in *; cbn [s_cells s_vals]. apply Forall_app in L as [L1 L2]. apply Forall_app; split.
+        -- apply Forall_forall; intros x Hx. apply In_firstn in Hx.
+           rewrite Forall_forall in L1. eapply live_mono; [| | apply L1; auto]; lia.
+        -- eapply Forall_impl; [| apply L2]. intros l Hl. eapply live_mono; [| | apply Hl]; lia.
+    + destruct (ev_apply_body c m1 (length (ops m)) oi (nth s (sts m) dflt_s)) as [m2 evb] eqn:Eb. cbn [fst].
+      pose proof (Inv_apply_body c m1 (length (ops m)) oi (nth s (sts m) dflt_s) F16 H1) as G. rewrite Eb in G; auto.
+Qed.
+
+(* ------------------------------------------------------------------ the frame theorem *)
+Lemma frame_step : forall c m p st v l, writes_fixed c = true -> Inv m ->
+  In v (values m) -> In l (reach m v) -> exec_all st (snd (step c m p)) l = st l.
+Proof.
+  intros c m p st v l F H Hv Hl. apply exec_all_untouched. intros Hw.
+  pose proof (step_writes_ok c m p F) as W. unfold Wok in W. rewrite Forall_forall in W.
+  pose proof (reach_live m v H Hv) as L. rewrite Forall_forall in L.
+  eapply okw_live_disjoint; eauto.
+Qed.
+
+Lemma run_step_eq : forall c m st p, run_step c (m, st) p = (fst (step c m p), exec_all st (snd (step c m p))).
+Proof. intros. unfold run_step; simpl. destruct (step c m p); auto. Qed.
+
+Lemma run_inv : forall c h m st, writes_fixed c = true -> Inv m -> Inv (fst (run c h (m, st))).
+Proof.
+  intros c h. induction h as [|p h IH]; intros m st F H; simpl; auto.
+  rewrite run_step_eq. apply IH; auto. apply step_inv; auto.
+Qed.
+
+(* values only accumulate, and the cells reachable from an existing value never change *)
+Definition extends (m m' : mstate) : Prop :=
+  (exists x, doms m' = doms m ++ x) /\ (exists y, sts m' = sts m ++ y).
+
+Lemma extends_refl : forall m, extends m m.
+Proof. intros; split; exists []; rewrite app_nil_r; auto. Qed.
+Lemma extends_trans : forall a b c, extends a b -> extends b c -> extends a c.
+Proof.
+  intros a b c [[x Hx] [y Hy]] [[x' Hx'] [y' Hy']]. split.
+  - exists (x ++ x'). rewrite Hx', Hx, app_assoc; auto.
+  - exists (y ++ y'). rewrite Hy', Hy, app_assoc; auto.
+Qed.
+
+Lemma extends_same : forall m m', doms m' = doms m -> sts m' = sts m -> extends m m'.
+Proof. intros m m' E1 E2; split; exists []; rewrite app_nil_r; auto. Qed.
+
+Lemma new_domain_extends : forall c m typed nacts u, extends m (fst (ev_new_domain c m typed nacts u)).
+Proof.
+  intros. unfold ev_new_domain. destruct (new_domain_types c (length (doms m)) typed) as [t evs]. simpl.
+  split; simpl; [eexists; eauto | exists []; rewrite app_nil_r; auto].
+Qed.
+
+Lemma add_state_extends : forall m si, extends m (add_state m si).
+Proof. intros; split; simpl; [exists []; rewrite app_nil_r; auto | eexists; eauto]. Qed.
+
+Lemma apply_body_extends : forall c m o oi src, extends m (fst (ev_apply_body c m o oi src)).
+Proof.
+  intros. unfold ev_apply_body. destruct (ev_copy_state m src) as [si evc].
+  destruct (ev_effects c o (length (sts m)) (o_base oi + a_pre (o_sh oi)) (a_effs (o_sh oi)) si
+             (3 + length (s_vals si))) as [si' eve]. simpl. apply add_state_extends.
+Qed.
+
+Lemma step_extends : forall c m p, extends m (fst (step c m p)).
+Proof.
+  intros c m p. destruct p; cbn [step].
+  - apply extends_refl.
+  - apply new_domain_extends.
+  - apply new_domain_extends.
+  - apply new_domain_extends.
+  - cbn [fst]. apply add_state_extends.
+  - destruct (add_op m (mk_oinfo d a objs sh)) as [m0 evo] eqn:E. cbn [fst].
+    apply add_op_same in E as (E1 & E2 & _). apply extends_same; auto.
+  - destruct (ev_ground m o (nth o (ops m) dflt_o)) as [oi evs]. cbn [fst]. apply extends_same; auto.
+  - destruct (ensure_grounded m o) as [[m1 oi] evg] eqn:E. cbn [fst].
+    apply ensure_grounded_same in E as (E1 & E2 & _). apply extends_same; auto.
+  - destruct (ensure_grounded m o) as [[m1 oi] evg] eqn:E.
+    apply ensure_grounded_same in E as (E1 & E2 & _).
+    destruct raised; [cbn [fst]; apply extends_same; auto|].
+    destruct (ev_apply_body c m1 o oi (nth s (sts m) dflt_s)) as [m2 evb] eqn:Eb. cbn [fst].
+    eapply extends_trans; [apply extends_same; eauto|].
+    pose proof (apply_body_extends c m1 o oi (nth s (sts m) dflt_s)) as G. rewrite Eb in G; auto.
+  - destruct (ev_copy_state m (nth s (sts m) dflt_s)) as [si evs]. cbn [fst]. apply add_state_extends.
+  - apply extends_refl.
+  - apply extends_refl.
+  - apply extends_refl.
+  - destruct (add_op m (mk_oinfo d a (Some pobjs) sh)) as [m0 evo] eqn:E0.
+    apply add_op_same in E0 as (Ed0 & Es0 & _).
+    destruct (ensure_grounded m0 (length (ops m))) as [[m1 oi] evg] eqn:E1.
+    apply ensure_grounded_same in E1 as (Ed1 & Es1 & _).
+    assert (X : extends m m1) by (apply extends_same; congruence).
+    destruct refused.
+    + destruct (fix17 c).
+      * destruct (ev_copy_state m1 (nth s (sts m) dflt_s)) as [si evs]. cbn [fst].
+        eapply extends_trans; [apply X | apply add_state_extends].
+      * cbn [fst]. eapply extends_trans; [apply X | apply add_state_extends].
+    + destruct (ev_apply_body c m1 (length (ops m)) oi (nth s (sts m) dflt_s)) as [m2 evb] eqn:Eb. cbn [fst].
+      eapply extends_trans; [apply X|].
+      pose proof (apply_body_extends c m1 (length (ops m)) oi (nth s (sts m) dflt_s)) as G. rewrite Eb in G; auto.
+Qed.
+
+Lemma extends_values : forall m m' v, extends m m' -> In v (values m) -> In v (values m').
+Proof.
+  intros m m' v [[x Hx] [y Hy]] H. unfold values in *. rewrite Hx, Hy, !app_length.
+  destruct H as [<-|H]; [left; auto|right].
+  apply in_app_or in H as [H|H]; apply in_map_iff in H as [i [<- Hi]]; apply in_seq in Hi; apply in_or_app;
+    [left|right]; apply in_map; apply in_seq; lia.
+Qed.
+
+Lemma extends_reach : forall m m' v, extends m m' -> In v (values m) -> reach m' v = reach m v.
+Proof.
+  intros m m' v [[x Hx] [y Hy]] H. unfold values in H. destruct H as [<-|H]; auto.
+  apply in_app_or in H as [H|H]; apply in_map_iff in H as [i [<- Hi]]; apply in_seq in Hi; simpl.
+  - rewrite Hx, app_nth1; auto; lia.
+  - rewrite Hy, app_nth1; auto; lia.
+Qed.
+
+(* for every finite history: every cell reachable from a value that is live after the prefix keeps its contents
+   through the rest of the history, and the value keeps reaching exactly those cells *)
+Lemma frame_history : forall c h2 m st v, writes_fixed c = true -> Inv m -> In v (values m) ->
+  let r := run c h2 (m, st) in
+  In v (values (fst r)) /\ reach (fst r) v = reach m v /\ forall l, In l (reach m v) -> snd r l = st l.
+Proof.
+  intros c h2. induction h2 as [|p h IH]; intros m st v F H Hv; simpl.
+  - repeat split; auto.
+  - rewrite run_step_eq.
+    pose proof (step_extends c m p) as X.
+    specialize (IH (fst (step c m p)) (exec_all st (snd (step c m p))) v F (step_inv c m p F H)
+                   (extends_values _ _ _ X Hv)).
+    simpl in IH. destruct IH as (I1 & I2 & I3). repeat split; auto.
+    + rewrite I2. apply extends_reach; auto.
+    + intros l Hl. rewrite I3.
+      * eapply frame_step; eauto.
+      * rewrite (extends_reach m _ v X Hv); auto.
 Qed.
